@@ -536,7 +536,7 @@ fn is_dzkp_rejection(e: &str) -> bool {
     e.contains("DZKPValidationFailed") || e.contains("ParallelDZKPValidationFailed")
 }
 
-fn e2e(env: &Env, src: &mut Src<'_>) -> CaseResult {
+pub fn e2e(env: &Env, src: &mut Src<'_>) -> CaseResult {
     let (plan, ml) = gen_plan(env, src);
     let pj = json!({"n": plan.n, "m": plan.m, "steps": plan.steps, "mode": format!("{:?}", plan.mode), "seed": plan.seed.to_string()});
     let mut labels = vec![format!("width:{}", plan.n), format!("steps:{}", plan.steps), ml.to_string()];
